@@ -802,3 +802,154 @@ func c03Crash(c *Ctx, idx int) CaseResult {
 	}
 	return res
 }
+
+// ---------- C01 under recovery: declared order in the process that resumes a plan after a crash ----------
+
+// c01Recovered applies the order rules to the plugin log of a recovering process; what ran before the crash is
+// taken from the durable snapshot sk.
+func c01Recovered(ps *spec.Plan, sk *spec.PlanView, t *oracle.Trace) []ev.Violation {
+	var out []ev.Violation
+	add := func(rule, disc, f string, a ...any) { out = append(out, ev.V("C01", "recovered/"+rule, disc, f, a...)) }
+	const open = int(^uint(0) >> 1)
+	endOf := func(inv oracle.Inv) int {
+		if inv.End < 0 {
+			return open
+		}
+		return inv.End
+	}
+	// blocks one at a time, in declared order
+	maxEnd := map[int]int{}
+	for _, inv := range t.Invs {
+		if inv.Addr.Block >= 0 && endOf(inv) > maxEnd[inv.Addr.Block] {
+			maxEnd[inv.Addr.Block] = endOf(inv)
+		}
+	}
+	reported := map[string]bool{}
+	for _, inv := range t.Invs {
+		for i := 0; i < inv.Addr.Block; i++ {
+			if me, ok := maxEnd[i]; ok && me > inv.Begin && !reported[fmt.Sprint(i, inv.Addr.Block)] {
+				reported[fmt.Sprint(i, inv.Addr.Block)] = true
+				add("block-overlap", "", "after the restart %s of block %d began before block %d had finished", inv.Tag, inv.Addr.Block, i)
+			}
+			// an earlier block that never became terminal (durably or in this process) must not be skipped
+		}
+	}
+	for bi, b := range ps.Blocks {
+		for si, s := range b.Seqs {
+			for ai, a := range s.Actions {
+				invs := t.Of(a.Tag)
+				for k := 1; k < len(invs); k++ {
+					if endOf(invs[k-1]) > invs[k].Begin {
+						add("action-overlap", "", "after the restart invocation %d of %s began before invocation %d ended", invs[k].N, a.Tag, invs[k-1].N)
+					}
+				}
+				if len(invs) == 0 || ai == 0 {
+					continue
+				}
+				prev := s.Actions[ai-1]
+				durable := sk.Status(prev.Tag) == spec.Completed
+				if o := sk.Get(prev.Tag); o != nil && o.Status == spec.Running {
+					if n := len(o.Attempts); n > 0 && !o.Attempts[n-1].HasErr && o.Attempts[n-1].End != 0 {
+						durable = true
+					}
+				}
+				okInLog := false
+				for _, pi := range t.Of(prev.Tag) {
+					if pi.End >= 0 && pi.End < invs[0].Begin && pi.Out == plug.OK {
+						okInLog = true
+					}
+					if pi.Begin > invs[0].Begin {
+						add("seq-order", "prev-after-next", "after the restart %s was invoked after %s had begun", prev.Tag, a.Tag)
+					}
+				}
+				if !durable && !okInLog {
+					add("seq-order", "prev-not-successful", "after the restart %s of B%d.S%d began although %s neither had a durable success at the crash nor succeeded before it in the new process", a.Tag, bi, si, prev.Tag)
+				}
+			}
+		}
+	}
+	// post / deferred placement within the new process
+	place := func(scope string, post, deferred *spec.Checks, seqIn func(oracle.Inv) bool) {
+		lastSeqEnd := -1
+		seqs := t.Filter(seqIn)
+		for _, s := range seqs {
+			if endOf(s) > lastSeqEnd {
+				lastSeqEnd = endOf(s)
+			}
+		}
+		first := func(c *spec.Checks) int {
+			f := -1
+			if c == nil {
+				return f
+			}
+			for _, a := range c.Actions {
+				for _, inv := range t.Of(a.Tag) {
+					if f < 0 || inv.Begin < f {
+						f = inv.Begin
+					}
+				}
+			}
+			return f
+		}
+		for name, c := range map[string]*spec.Checks{"post": post, "deferred": deferred} {
+			b := first(c)
+			if b < 0 {
+				continue
+			}
+			if lastSeqEnd > b {
+				add(name+"-early", scope[:1], "after the restart the %s checks of %s began while a sequence action was still executing", name, scope)
+			}
+			for _, s := range seqs {
+				if s.Begin > b {
+					add(name+"-early", scope[:1]+",seq-after", "after the restart sequence action %s began after the %s checks of %s", s.Tag, name, scope)
+					break
+				}
+			}
+		}
+	}
+	place("P", ps.Post, ps.Deferred, func(i oracle.Inv) bool { return i.Addr.Kind == "seq" })
+	for bi := range ps.Blocks {
+		bi := bi
+		place(fmt.Sprintf("B%d", bi), ps.Blocks[bi].Post, ps.Blocks[bi].Deferred, func(i oracle.Inv) bool { return i.Addr.Kind == "seq" && i.Addr.Block == bi })
+	}
+	return out
+}
+
+func c01Crash(c *Ctx, idx int) CaseResult {
+	res := CaseResult{Counters: map[string]int{}}
+	r := gen.Rand(c.Seed, "C01crash", idx)
+	g := gen.Base()
+	g.MaxBlocks, g.MaxSeqs, g.MaxActions = 3, 3, 3
+	g.MaxRetries, g.PTransient = 0, 0
+	g.PFailCont = 0
+	g.PCont, g.PBCont = 0.2, 0.2
+	g.SleepUS = [2]int{0, 1500}
+	g.TailP = 0
+	g.ContSleepUS = [2]int{0, 500}
+	g.NoBlockDelays = true
+	g.PFailSeqAction = 0.12
+	ps := g.Plan(r, "p0")
+	var first any
+	cp := exploreCrashes(&ps, r, 1<<30, &res, func(sk *spec.PlanView, rec *crash.Recovery, t *oracle.Trace, second bool, k, j int) {
+		if rec == nil || !rec.Returned {
+			return
+		}
+		res.Counters["recoveries"]++
+		vs := c01Recovered(&ps, sk, t)
+		if len(vs) > 0 && first == nil {
+			first = map[string]any{"k": k, "durable_state": describeSk(sk), "recovery_events": rec.Events}
+		}
+		res.Viols = append(res.Viols, vs...)
+	})
+	if cp != nil {
+		res.Nontriv = hashStr(fmt.Sprint("crash", ps))
+		res.ISig = res.Nontriv
+		if idx%100 == 19 {
+			res.Sample = map[string]any{"mode": "order rules in the process that resumes the plan, every crash point", "plan": ps, "writes": cp.NW}
+		}
+	}
+	if len(res.Viols) > 0 {
+		res.Witness = map[string]any{"plan": ps, "first": first}
+	}
+	return res
+}
